@@ -5,6 +5,7 @@ import NixModel.Lemmas.StoreWF
 import NixModel.Lemmas.C04Ext
 import NixModel.Lemmas.C04Obj
 import NixModel.Store.C04Copy
+import NixModel.Lemmas.C04Forest
 
 /-!
 # C04 — deleting an entity removes it, what it owns and every link to it — nothing else
@@ -28,6 +29,9 @@ records that it was false of the deletion by id (`Graph.deleteAll`, no longer us
 What is partial:
 * `subtree_complete` assumes that the section / source hierarchy below the deleted entity is a
   finite forest (`ForestSize`) of at most `|nodes|² + 1` entities — the collection is fuel-based;
+  `subtree_finite_of_growing` discharges the *finite forest* half from the decidable condition that
+  child keys exceed their parent's (`GrowingKids`: objects are keyed in creation order), the bound on
+  the count (no entity with two parents) stays a hypothesis;
 * that HDF5 frees what became unreachable is not observable through the API and not modelled.
 -/
 namespace Nix.C04
@@ -112,6 +116,17 @@ theorem subtree_complete_of_done (g : Graph) (c : Cont) (k : Nat) (sub : String)
   rcases hf with ⟨hfl, hsub⟩ | ⟨hfl, hsub⟩ <;> subst hsub <;> simp only [hfl]
   · exact h
   · exact List.mem_append.mpr (Or.inl h)
+
+/-- **the hierarchy is a finite forest whenever child keys grow** (`GrowingKids`, decidable; nodes are
+keyed in creation order and a section / source is created inside its parent): the collection loop of
+`find_sections` / `find_sources`, which keeps no visited set, ends, and run to its end it hands every
+entity at or below the deleted one to `delete_all`. Partial with respect to `subtree_complete`: the
+fuel that suffices is shown to exist, not to be below `|nodes|² + 1`. -/
+theorem subtree_finite_of_growing (g : Graph) (sub : String) (B : Nat) (h : GrowingKids g sub B)
+    (k : Nat) (hk : k < B) :
+    (∃ n, ForestSize g sub [k] n) ∧
+    ∃ fuel, bfsRest g sub fuel [k] = [] ∧ ∀ d, Desc g sub k d → d ∈ bfsKeys g sub fuel [k] [] :=
+  ⟨forest_of_growing g sub B h [k] (by simpa using hk), bfs_ends_of_growing g sub B h k hk⟩
 
 /-- … and nothing but the subtree is handed over (no assumption) -/
 theorem subtree_sound (g : Graph) (c : Cont) (k d : Nat) (h : d ∈ delKeys g c k) : InSub g c k d :=
@@ -432,6 +447,9 @@ example : ForestSize demo2 "sections" [4] 3 := by
   have h8 : ForestSize demo2 "sections" [8] 1 := .cons 8 [] 0 0 (k8 ▸ .nil) .nil
   have h6 : ForestSize demo2 "sections" [6] 2 := .cons 6 [] 1 0 (k6 ▸ h8) .nil
   exact .cons 4 [] 2 0 (k4 ▸ h6) .nil
+/-- the hypothesis of `subtree_finite_of_growing` holds of that file, for sections and for sources -/
+example : GrowingKids demo2 "sections" demo2.nextKey ∧ GrowingKids demo2 "sources" demo2.nextKey ∧ 4 < demo2.nextKey := by
+  decide +kernel
 /-- `y` lies below `s`, and it is handed to `delete_all` when `s` is deleted -/
 example : Desc demo2 "sections" 4 8 :=
   .step (m := 6) (by decide +kernel) (.step (m := 8) (by decide +kernel) (.refl 8))
